@@ -8,7 +8,7 @@ export GOFLAGS=-mod=mod GOPROXY=off GOSUMDB=off GOTOOLCHAIN=local
 W=$(mktemp -d /tmp/vseed-XXXXXX)
 trap 'git -C /repo worktree remove --force "$W/repo" >/dev/null 2>&1; rm -rf "$W"' EXIT
 git -C /repo worktree add -q --detach "$W/repo" HEAD || exit 3
-DEMO=$(ls "$SRC"/*_test.go | head -1)
+DEMO=$(ls "$SRC"/seed_demo_test.go 2>/dev/null || ls "$SRC"/*_test.go | grep -v existing_demo | head -1)
 DDIR=$(tr -d ' \n' < "$SRC/demo_dir.txt")
 OUT=/verif/seeded/$NAME
 mkdir -p "$OUT"
